@@ -93,7 +93,7 @@ CLAIMED = {
          'assumption, exercised by the instrumented lock); GIL atomicity of single dict operations and CPython\'s iteration checks are '
          'runtime behaviour outside the model.'),
  'C20': ('Theorems clear_total / clear_pristine / clear_fields / clear_constants / clear_observationally_fresh (every continuation of '
-         'operations) / clear_idempotent hold for every state; tied to gin.config by random histories (binds, finalize, nested unlocks, '
+         'operations) / clear_idempotent hold for every state; over histories: runOps_append / clear_after_any_history / clear_forgets_history (whatever ran before, the rest of the history runs as from the pristine state with the same registrations); tied to gin.config by random histories (binds, finalize, nested unlocks, '
          'calls under scopes, singleton uses, colliding constants in interactive mode, failed operations) followed by clear_config and a '
          'tail of observers and calls that is also run in a fresh interpreter with only the registrations. Tables on the real code: a singleton whose constructor fails, then clear_config (or not), then the same scope name; clear_config after printing the configuration failed (run aside with a time limit).',
          BASE + 'config_str / operative_config_str are compared structurally through the stores here; their text is C06/C07.'),
@@ -123,7 +123,7 @@ CLAIMED = {
          'are covered by the correspondence only. '
          'tokenize is CPython\'s. Layouts respect Python\'s own indentation rules.'),
  'C04': ('Theorems ref_plain / ref_scope / macro_is_scoped_ref / caller_supplied_not_evaluated / call_preserves_config (frame of the '
-         'fuel-indexed evaluator, by induction over all five mutually recursive evaluation functions) / query_after_call hold for every '
+         'fuel-indexed evaluator, by induction over all five mutually recursive evaluation functions) / query_after_call / eval_counts_monotone / evaluated_ref_fresh (two evaluations of an evaluated reference, anything in between, give different results) / same_ref_twice_two_runs hold for every '
          'store, value nesting, scope and fuel; the evaluator is tied to gin.config by comparing the complete per-target call log (scope '
          'seen, values received, fresh result indices) of nested reference DAGs under random ambient scopes and caller overrides, with '
          'every probe mutating the containers it receives and the store re-observed afterwards. Tables on the real code (two registrations of one function; referenced configurables that raise an Exception or a bare BaseException) and a stream of C19-generated dynamic-registration files that hold references, judged by C19\'s machinery.',
